@@ -29,6 +29,11 @@ pub trait Property: Sync {
     /// enabled continuations in the reached state
     fn enabled(&self, w: &Self::World, len: usize) -> Vec<Self::Op>;
     fn absorb(&self, _w: &Self::World, _s: &mut Self::Stats) {}
+    /// simpler variants of an operation the minimiser may try in its place (e.g. a worker step without the
+    /// journal-rotation flag), so that a known defect keeps one signature however it was reached
+    fn simplify(&self, _op: &Self::Op) -> Vec<Self::Op> {
+        vec![]
+    }
     /// canonical state hash (see canon.rs); `None` = this state is never merged with another
     fn canon(&self, _w: &Self::World) -> Option<u64> {
         None
@@ -352,6 +357,21 @@ pub fn minimise<P: Property>(prop: &P, found: &Found<P::Op>) -> Found<P::Op> {
                     changed = true;
                 }
                 _ => i += 1,
+            }
+        }
+        // replace operations by simpler variants
+        for i in 0..prog.len() {
+            for alt in prop.simplify(&prog[i]) {
+                let mut cand = prog.clone();
+                cand[i] = alt;
+                if let RunResult::Bad(v2) = run_program(prop, &cand, 0, None) {
+                    if v2.clause == v.clause && v2.clause != "harness" {
+                        prog = cand;
+                        v = v2;
+                        changed = true;
+                        break;
+                    }
+                }
             }
         }
     }
